@@ -102,7 +102,7 @@ static void case_buffers(vf_rng *r)
 	char ctx[160];
 	vf_fp_u64(0xb);
 	for (int i = 0; i < nops; i++) {
-		int op = (int) vf_below(r, 6), a = (int) vf_below(r, NHB), b = (int) vf_below(r, NHB);
+		int op = (int) vf_below(r, 7), a = (int) vf_below(r, NHB), b = (int) vf_below(r, NHB);
 		MPT_STRUCT(buffer) *before = h[a]._buf;
 		snprintf(ctx, sizeof(ctx), "buffers op=%d a=%d b=%d", op, a, b);
 		vf_log("%s", ctx);
@@ -145,6 +145,21 @@ static void case_buffers(vf_rng *r)
 			VF_CHECK(bf->_vptr->get_flags(bf) & MPT_ENUM(BufferShared), "buffer:shared-flag", "%s: buffer with 2+ references not flagged shared", ctx);
 			bf->_vptr->unref(bf);
 			break; }
+		case 6: { /* the buffer's own detach entry with an arbitrary size: may be refused (size below the
+		           * content of a shared buffer), must never change the number of references */
+			if (!h[a]._buf || nobj >= 60) break;
+			MPT_STRUCT(buffer) *bf = h[a]._buf;
+			size_t want = vf_chance(r, 1, 2) ? vf_below(r, 8) : vf_below(r, (uint32_t) bf->_used + 200);
+			vf_at("buffer::detach"); vf_count("buffer:detach", 1);
+			MPT_STRUCT(buffer) *nb = bf->_vptr->detach(bf, want);
+			if (!nb) { vf_count("buffer:detach-refused", 1); break; }
+			h[a]._buf = nb;
+			if (nb != bf) {
+				int known = 0;
+				for (int k = 0; k < nobj; k++) if (objs[k] == nb) known = 1;
+				if (!known) { objs[nobj] = nb; cnt[nobj] = 1; nobj++; }
+			}
+			break; }
 		case 5: { /* counter at maximum: sharing must be refused, not wrap */
 			if (!h[a]._buf || h[b]._buf == h[a]._buf) break;
 			MPT_STRUCT(buffer) *bf = h[a]._buf;
@@ -172,6 +187,11 @@ static void case_buffers(vf_rng *r)
 			if (m > maxcnt) maxcnt = (int) m;
 			if (m) {
 				VF_CHECK(!is_freed(objs[k]), "buffer:destroyed-while-referenced", "%s: buffer %d freed with %ld handles", ctx, k, m);
+				/* the counter itself: addref reports the new value */
+				uintptr_t c = objs[k]->_vptr->addref(objs[k]);
+				objs[k]->_vptr->unref(objs[k]);
+				VF_CHECK(c == (uintptr_t) m + 1, c > (uintptr_t) m + 1 ? "buffer:counter-above-handles" : "buffer:counter-below-handles",
+				         "%s: buffer %d has %ld handles but its counter is %lu", ctx, k, m, (unsigned long) c - 1);
 				int sharedflag = (objs[k]->_vptr->get_flags(objs[k]) & MPT_ENUM(BufferShared)) != 0;
 				VF_CHECK(sharedflag == (m > 1), "buffer:shared-flag", "%s: buffer %d with %ld handles reports shared=%d", ctx, k, m, sharedflag);
 			} else if (cnt[k] != -1) {
